@@ -20,6 +20,8 @@ def dict_variants(rng, name, limit):
             vs = [not v]
         elif isinstance(v, (int, float)):
             vs = [0, -1, v * 2, -v, v + 1, "x", None, 10 ** 9 if isinstance(v, int) else 1e300, 0.5]
+            if isinstance(v, int):
+                vs += [v - 1, max(1, v // 2), v // 2 + 1]      # where cross-field validators (a bound that depends on another field) start to refuse
         elif isinstance(v, list):
             vs = [list(reversed(v)), [], v + v, [0 for _ in v], "x"]
         elif v is None:
@@ -31,6 +33,11 @@ def dict_variants(rng, name, limit):
         out.append({"__drop__": k})
     rng.shuffle(out)
     out = out[:limit]
+    # smaller populations, always: bounds of other fields that depend on the population size (cross-field validators) start to refuse here, on both routes alike
+    ps = base.get("population_size")
+    if isinstance(ps, int):
+        for x in sorted({ps - 1, max(1, ps // 2), ps // 2 + 1, max(1, ps // 3)}):
+            out.append({"population_size": x})
     # and, for every algorithm parameter, one validator-accepted moved value that is always run (HyperTuner re-configures exactly so)
     seen = set()
     for k, v in optimizers.param_variants(name):
